@@ -18,6 +18,21 @@ CLAIMED = {
          "Trusted: go/ssa, symgo, z3. Outside: static AST resolution, JSON projection, resolveMerge/resolveSplit and getParts, "
          "top-level _outs, map-key forks and more than two fork dimensions.",
          "DESIGN.md §4 C01"),
+ "C02": ("One step of the real scheduler code (Fork.step/stepStage/doSplit/doChunks/doJoin/doComplete, Chunk.step, Node.step/getState, "
+         "runJob) from an arbitrary sentinel-file state: every combination of _errors/_assert/_complete/_disabled/_log/_jobinfo/_stage_defs on "
+         "split, chunks, join and fork metadata (= every instant of every schedule) is symbolic under the phase invariant; a recording fake job "
+         "manager is the observer. Asserted: chunk jobs only after split complete, join only after all chunks complete, a node submits only "
+         "when running and enters running only when producer, disabling source and every enclosing preflight are done.",
+         "Trusted: go/ssa, symgo, z3; the OS-boundary and AST/JSON stubs listed in the evidence (each returns an arbitrary outcome within its contract); the assumed representation invariant PhaseInv; the hand-built graph (one fork per node, <=2 chunks, P{PRE,A,C,Q{B}}). Outside: prenode construction from bindings, dynamic fork expansion, real processes and job-manager queues.", "DESIGN.md §4 C02, appendix A"),
+ "C03": ("Same harness family as C02, plus two consecutive steps with arbitrary job progress and an optional restart in between: no metadata is "
+         "handed to execJob twice, a job is submitted only from its empty state and then carries _jobinfo, exactly the chunks _stage_defs lists are "
+         "created, a disabled fork submits nothing and is marked disabled.",
+         "Trusted: go/ssa, symgo, z3; the OS-boundary and AST/JSON stubs listed in the evidence (each returns an arbitrary outcome within its contract); the assumed representation invariant PhaseInv; the hand-built graph (one fork per node, <=2 chunks, P{PRE,A,C,Q{B}}). Outside: prenode construction from bindings, dynamic fork expansion, real processes and job-manager queues. Also outside: static fork enumeration (MakeForkIds) and compile-time disabled pruning.", "DESIGN.md §4 C03, appendix A"),
+ "C06": ("Partial (scheduler decision kernel): faults are symbolic sentinel files and stub verdicts — _errors/_assert in any combination, "
+         "unreadable or invalid outputs, unparseable _stage_defs. Asserted: failure precedence, a failed job fails its fork and node, a failed "
+         "node stays on the frontier and the pipestance state is failed never complete, consumers wait and submit nothing, independent stages "
+         "are unaffected, invalid outputs write _errors and never _complete.",
+         "Trusted: go/ssa, symgo, z3; the OS-boundary and AST/JSON stubs listed in the evidence (each returns an arbitrary outcome within its contract); the assumed representation invariant PhaseInv; the hand-built graph (one fork per node, <=2 chunks, P{PRE,A,C,Q{B}}). Outside: prenode construction from bindings, dynamic fork expansion, real processes and job-manager queues. Also outside: how a process failure becomes _errors, retries, mrp exit code, restart after the fault is removed.", "DESIGN.md §4 C06, appendix A"),
  "C08": ("Every byte string up to 3 (thorough 4) bytes is run symbolically through the real lexer step, the scanner loop, and the whole "
          "expression parser (yacc tables + grammar actions); 19/20-digit integer tokens and 8-hex-digit \\U escapes get their own harnesses. "
          "An uncaught Go panic on any path is a violation with concrete bytes, replayed natively. Partial: lexer contract and "
